@@ -165,7 +165,49 @@ func (ex *Executor) exploreInline(fn *ssa.Function, st *State, args []Value, bin
 func (ex *Executor) unmodelled(st *State, c *callCtx) []callResult {
 	st.Emit("Unmodelled", []Value{StrLit(c.Name)}, nil, ex.pos(c.Pos))
 	st.Note("unmodelled call %s", c.Name)
-	return one(st, ex.havocResults(st, c.Sig, "um"))
+	res := ex.havocResults(st, c.Sig, "um")
+	// what an unknown function returns may carry its textual operands (an error that
+	// quotes the input, a formatted string): string and error results become applications
+	// of a symbol of their own to the string operands, so that the information-flow rule
+	// (C17) sees the operands inside them; the values stay as unconstrained as before
+	var strArgs []*Term
+	for _, a := range append(append([]Value(nil), c.Args...), c.Recv) {
+		switch x := a.(type) {
+		case *Term:
+			if x.S == SStr {
+				strArgs = append(strArgs, x)
+			}
+		case *BytesV:
+			strArgs = append(strArgs, x.T)
+		}
+	}
+	if len(strArgs) > 0 {
+		carry := func(v Value, t types.Type) Value {
+			x, ok := v.(*Term)
+			if !ok || !x.Sym || len(x.Args) != 0 {
+				return v
+			}
+			if x.S == SStr || (x.S == SInt && t != nil && t.String() == "error") {
+				n := App(strings.Trim(x.Op, "|")+"!of", x.S, strArgs...)
+				if x.S == SInt {
+					st.Fact(Or(isNilT(n), App("env_error", SBool, n)))
+				}
+				return n
+			}
+			return v
+		}
+		rs := c.Sig.Results()
+		if tv, ok := res.(*TupleV); ok {
+			for i := range tv.V {
+				if i < rs.Len() {
+					tv.V[i] = carry(tv.V[i], rs.At(i).Type())
+				}
+			}
+		} else if res != nil && rs.Len() == 1 {
+			res = carry(res, rs.At(0).Type())
+		}
+	}
+	return one(st, res)
 }
 
 func (ex *Executor) opaqueFuncCall(st *State, c *callCtx) []callResult {
